@@ -520,7 +520,8 @@ EGO0 = {"t": [0.0, 0.0, 0.0], "cs": (1.0, 0.0)}
 
 def gen_cfg(rng, n, rich=True):
     def thr(pool):
-        return [rng.choice(pool) for _ in range(n)]
+        # every tenth entry: the falsy-but-valid 0 (no distance is below it: every result of that label is an FP; every overlap is above it)
+        return [0.0 if (rich and rng.random() < 0.1) else rng.choice(pool) for _ in range(n)]
 
     d = {"center": [thr([0.5, 1.0, 1.25, 2.0])], "iou2d": [thr([0.25, 0.5, 0.75])], "iou3d": [thr([0.25, 0.5])], "plane": [thr([1.0, 2.0, 3.0])]}
     if rich:
@@ -734,6 +735,15 @@ def gen_boundary(rng, tier):
     scen.append([_frame(0, [g(C, 5, 5, "g0"), g(C, 120, 5, "g1"), g("truck", 0, 9, "g2")], [g(C, 5, 5, "t0"), g(C, 120, 5, "t1"), g("truck", 0, 9, "t2")], crit=0),
                  _frame(1, [g(C, 5, 5, "g0"), g(C, 40, 5, "g1")], [g(C, 5, 5, "t0"), g(C, 40, 5, "t1")], crit=0),
                  _frame(2, [g(C, 5, 5, "g0"), g(C, 29, 5, "g1")], [g(C, 5, 5, "t0"), g(C, 29, 5, "t1")], crit=0)])
+    # ONE ground-truth uuid carried by two annotations of the previous frame (a duplicated annotation), each matched by its own track and both
+    # within the threshold: the current result of that ground truth has two previous TP results with its ground-truth id; then a frame without
+    # estimates and a frame without anything in between
+    scen.append([_frame(0, [g(C, 5, 5, "g0"), g(C, -5, 5, "g0")], [g(C, 5.25, 5, "t0"), g(C, -5, 5.5, "t1")]),
+                 _frame(1, [g(C, 5, 5, "g0")], [g(C, 5, 5, "t0")]),
+                 _frame(2, [g(C, 5, 5, "g0"), g(C, -5, 5, "g0")], [g(C, 5.25, 5, "t1"), g(C, -5, 5.5, "t0")]),
+                 _frame(3, [g(C, 5, 5, "g0")], []), _frame(4, [], []),
+                 _frame(5, [g(C, 5, 5, "g0"), g(C, -5, 5, "g0")], [g(C, 5.25, 5, "t1"), g(C, -5, 5.5, "t0")]),
+                 _frame(6, [g(C, 5, 5, "g0")], [g(C, 5, 5, "t1")])])
     for fr in scen:
         for frame in ("base_link", "map"):
             for unknown in (True, False):
@@ -837,6 +847,8 @@ class TrackingPipelineCorr(Corr):
             d["frames_max"] = max(d["frames_max"], len(o["frames"]))
             d["renamed_runs"] += o.get("renamed") is not None
             d["tracking2d_histories"] += c.get("dim") == "2d"
+            d["histories_with_a_threshold_of_exactly_0"] = d.get("histories_with_a_threshold_of_exactly_0", 0) + any(0 in t for l in c["cfg"].values() for t in l)
+            d["frames_without_estimates"] = d.get("frames_without_estimates", 0) + sum(1 for f in c["frames"] if not f["ests"])
             if c.get("policy"):
                 d["label_policy_key"][c["policy"]] = d["label_policy_key"].get(c["policy"], 0) + 1
             ns = len(o["scene"]["scores"])
@@ -883,11 +895,11 @@ LEVEL_TEXT = ("Tracking glue (Props/C05Pipeline.v, closed under the global conte
               "the whole manager run unchanged; totals are the weighted formulas. Tie: the real manager in tracking mode on generated multi-frame "
               "histories, every frame's and the scene's tracking_scores / _sum_clear() / num_ground_truth reproduced by the model inside Coq.")
 RULE = ("real PerceptionEvaluationManager(evaluation_task=tracking) on the bundled fixture; hand-built boundary histories (KeyError regression witness, "
-        "empty frames, carry-over beyond the threshold, scores exactly on the threshold, new id / swap / swap back, uuid shared across labels, cross-label "
+        "empty frames, one ground-truth uuid matched by two previous results, carry-over beyond the threshold, scores exactly on the threshold, new id / swap / swap back, uuid shared across labels, cross-label "
         "pairs, unknown estimates, FP-labelled ground truths, range filters, permuted critical target labels) x {base_link, map} x {allow_matching_unknown}; "
         "tracker shapes with the totals the property text demands; random scenes of 2-8 (quick) / 2-14 (thorough) frames, <= 7 persistent ground-truth tracks "
         "with births, deaths, misses, ground-truth gaps, id changes, identity swaps, label changes, spurious and out-of-range estimates, 1-4 target labels with "
-        "per-label thresholds, 1-6 configured scores, 4 critical filters (also changing per frame), random rational ego pose; a consistently renamed copy of "
+        "per-label thresholds (every tenth entry exactly 0), 1-6 configured scores, 4 critical filters (also changing per frame), random rational ego pose; a consistently renamed copy of "
         "the history is run in 35-60% of the cases; every fifth random history configures the label policy through the documented `matching_label_policy` "
         "key (ALLOW_ANY / ALLOW_UNKNOWN / DEFAULT) instead of the legacy switch; every seventh random history (and five boundary ones) is rendered as ROI "
         "objects for a tracking2d evaluator on the front camera (centre-distance thresholds in pixels; plane-distance / IoU-3D thresholds stay configured "
